@@ -195,6 +195,10 @@ def callOther (C : Crypto) (w : World) (src dst : Bytes) (func : String) (egld :
     | .ok out => tmFinish w dst out
     | .error _ => none
   | some .governance =>
+    -- the protocol's `upgradeContract(code, metadata)` run by the owner: `upgrade()` is empty
+    if func == "upgradeContract" then
+      if src == w.owner dst && egld == 0 && esdt.isEmpty && args.length == 2 then some (w, [], [], []) else none
+    else
     if func == "execute" then
       if egld ≠ 0 || !esdt.isEmpty then none else
       match args with
